@@ -154,10 +154,42 @@ func ruleMergePolicy(c *Ctx, r *Reporter) {
 					inner = l2
 				}
 			}
+			prev := "param:" + fn.Params[1].Name()
+			elemI := elem
+			if inner == nil {
+				// the skip loop may have been extracted into a helper called from the source loop: helper(iter, prevKey)
+				AllInstrs(fn, false, func(_ *ssa.Function, ins ssa.Instruction) {
+					call, ok := ins.(*ssa.Call)
+					if !ok || !loop.Contains(call.Block()) || inner != nil {
+						return
+					}
+					g := call.Call.StaticCallee()
+					if g == nil || !c.InKevo(g) || len(g.Blocks) == 0 {
+						return
+					}
+					pPrev, pIter := "", ""
+					for i, a := range call.Call.Args {
+						if i >= len(g.Params) {
+							break
+						}
+						if a == ssa.Value(fn.Params[1]) {
+							pPrev = "param:" + g.Params[i].Name()
+						} else if _, isIface := g.Params[i].Type().Underlying().(*types.Interface); isIface {
+							pIter = "param:" + g.Params[i].Name()
+						}
+					}
+					if pPrev == "" || pIter == "" {
+						return
+					}
+					for _, l2 := range GenericLoops(g) {
+						inner, prev, elemI = l2, pPrev, pIter
+					}
+				})
+			}
 			if inner == nil {
 				r.Bad(name+":advance-past-previous", c.FnPos(fn), "no loop advances a source past the previous key: duplicates / older versions of the key just emitted are not skipped")
 			} else {
-				prev := "param:" + fn.Params[1].Name()
+				elem := elemI
 				for _, k := range []int64{-1, 0, 1} {
 					sc := &Scenario{Terms: map[string]int64{"Key(" + elem + ")": 5 + k, prev: 5, "phi:rangeindex": 0}, Bools: map[string]bool{"Valid(" + elem + ")": true, "Next(" + elem + ")": true}}
 					ev := EvalLoopIter(inner, sc)
@@ -404,7 +436,67 @@ func ruleFilter(c *Ctx, r *Reporter) {
 				}
 			}
 		})
-		r.Check(ok, "filtered."+spec[0], c.FnPos(fn), "predicate is "+spec[1]+"(key, pattern)", "predicate is not "+spec[1]+"(key, pattern) in that argument order")
+		if ok {
+			r.OK("filtered."+spec[0], c.FnPos(fn), "predicate is "+spec[1]+"(key, pattern)")
+			continue
+		}
+		// a hand-written predicate: decision table over the length relation and the byte comparison
+		type row struct {
+			keyLen int64
+			equal  bool
+			want   bool
+		}
+		rows := []row{{2, true, false}, {3, true, true}, {5, true, true}, {5, false, false}, {3, false, false}}
+		var bad []string
+		decided := true
+		for _, rw := range rows {
+			zero := int64(0)
+			sc := &Scenario{Terms: map[string]int64{}, Bools: map[string]bool{}, Vals: map[ssa.Value]int64{}, BoolVals: map[ssa.Value]bool{}, DefaultInt: &zero}
+			for _, fv := range cl.FreeVars {
+				if isIntType(fv.Type()) || isIntType(deref(fv.Type())) {
+					sc.Vals[fv] = 3 // a captured length of the pattern
+					sc.Terms["param:"+fv.Name()] = 3
+				}
+			}
+			AllInstrs(cl, false, func(_ *ssa.Function, ins ssa.Instruction) {
+				call, isCall := ins.(*ssa.Call)
+				if !isCall {
+					return
+				}
+				if b, isB := call.Call.Value.(*ssa.Builtin); isB && b.Name() == "len" {
+					if _, isParam := call.Call.Args[0].(*ssa.Parameter); isParam {
+						sc.Vals[call] = rw.keyLen
+					} else {
+						sc.Vals[call] = 3
+					}
+				}
+				switch staticName(call) {
+				case "bytes.Equal":
+					sc.BoolVals[call] = rw.equal
+				case "bytes.Compare":
+					if rw.equal {
+						sc.Vals[call] = 0
+					} else {
+						sc.Vals[call] = 1
+					}
+				case "bytes.HasPrefix", "bytes.HasSuffix":
+					sc.BoolVals[call] = rw.equal && rw.keyLen >= 3
+				}
+			})
+			res := EvalPath(cl.Blocks[0], nil, sc, nil)
+			if res.Err != "" || res.Ret == nil || len(res.RetVals) != 1 || res.RetVals[0].Kind != "bool" {
+				decided = false
+				break
+			}
+			if res.RetVals[0].B != rw.want {
+				bad = append(bad, fmt.Sprintf("len(key)=%d, len(pattern)=3, bytes %s → %v (must be %v)", rw.keyLen, map[bool]string{true: "equal", false: "differ"}[rw.equal], res.RetVals[0].B, rw.want))
+			}
+		}
+		if !decided {
+			r.Undecided("filtered."+spec[0], c.FnPos(fn), "the predicate is neither "+spec[1]+"(key, pattern) nor a length/equality test the table can decide")
+			continue
+		}
+		r.Check(len(bad) == 0, "filtered."+spec[0], c.FnPos(fn), "hand-written predicate agrees with "+spec[1]+" on the length/equality table", "the predicate disagrees with "+spec[1]+"(key, pattern): "+strings.Join(bad, "; ")+" — a key that is exactly the pattern (or shorter/longer in the wrong way) is filtered wrongly")
 	}
 }
 
